@@ -405,6 +405,8 @@ func init() {
 	hostiles["slice"] = reflect.TypeOf([]*T0(nil))
 	hostiles["sliceI0"] = reflect.TypeOf([]I0(nil))
 	hostiles["unsafe"] = reflect.TypeOf(uintptr(0))
+	hostiles["sliceslice"] = reflect.TypeOf([][]*T0(nil))
+	hostiles["slicesliceS0"] = reflect.TypeOf([][]S0(nil))
 	hostiles["HErrVal"] = reflect.TypeOf(HErrVal{})
 	hostiles["HErrPtr"] = reflect.TypeOf(&HErrPtr{})
 	hostiles["HErrSlice"] = reflect.TypeOf(HErrSlice(nil))
